@@ -220,6 +220,24 @@ def gen_const_ops(ctx):
     return ops
 
 
+def parse_op(line):
+    f = line.split()
+    return tuple(int(a) if (a.lstrip("-").isdigit() and f[0] != "lit") else a for a in f)
+
+
+def corpus_ops():
+    out = []
+    d = os.path.join(vlib.VERIF, "corpus", "C15")
+    if os.path.isdir(d):
+        for fn in sorted(os.listdir(d)):
+            if fn.endswith(".txt"):
+                for l in open(os.path.join(d, fn)):
+                    l = l.strip()
+                    if l and not l.startswith("#"):
+                        out.append(parse_op(l))
+    return out
+
+
 def const_expected(op):
     """the property's own predicate: what exact arithmetic says the real function must return (None = no requirement)"""
     k = op[0]
@@ -553,9 +571,49 @@ def gen_float_ops(ctx):
 
 
 # ------------------------------------------------------------------ the check
+def replay(ctx, h, warun):
+    """re-run one recorded failing input on the real code and report whether it still fails"""
+    import json
+    r = json.load(open(ctx.replay))
+    rp = r.get("replay", r)
+    if "op" in rp:
+        _, out, _ = ctx.run_bin(h, input_text=rp["op"] + "\n")
+        got = out.strip()
+        exp = rp.get("exact") or const_expected(parse_op(rp["op"][2:]))
+        print("replay op %r -> %r (exact %r)" % (rp["op"], got, exp))
+        if got != exp:
+            ctx.violation(r.get("key", "replay"), "replay: %s -> %s, exact %s" % (rp["op"], got, exp), rp)
+    elif "decl" in rp:
+        p = os.path.join(ctx.tmp, "replay.wa.go")
+        with open(p, "w") as f:
+            f.write("package main\n\n" + rp["decl"] + "\n\nfunc main() {}\n")
+        _, out, _ = ctx.run_bin(h, input_text="w chk %s %d\n" % (p, WORD))
+        got = out.strip()
+        exp = rp.get("exact")
+        print("replay decl %r -> %r (exact %r)" % (rp["decl"], got, exp))
+        if (exp == "reject") != (not got.startswith("ok:")) or (got.startswith("ok:") and got != exp):
+            ctx.violation(r.get("key", "replay"), "replay: `%s` -> %s, exact %s" % (rp["decl"], got, exp), rp)
+    elif "program" in rp:
+        wst, wl, werr = run_wa(ctx, warun, rp["program"], "replay")
+        print("replay program -> %s %r" % (wst, wl[:5]))
+        exp = rp.get("expected") or rp.get("exact")
+        if wst != "ok" or (exp is not None and " ".join(wl).split() != str(exp).split()):
+            ctx.violation(r.get("key", "replay"), "replay: program prints %r, expected %r" % (wl[:3], exp), rp)
+    elif "expr" in rp:
+        src = "package main\n\n%s\n\nfunc main() {\n\tprintln(%s, %s)\n}\n" % (rp.get("fn", ""), rp["expr"], rp.get("call", rp["expr"]))
+        wst, wl, werr = run_wa(ctx, warun, src, "replay")
+        print("replay expr -> %s %r" % (wst, wl[:2]))
+        f = wl[0].split() if wl else []
+        if wst != "ok" or len(f) != 2 or f[0] != f[1] or (rp.get("exact") and f[0] != rp["exact"]):
+            ctx.violation(r.get("key", "replay"), "replay: `%s` prints %r (folded, run time); exact %s" % (rp["expr"], f, rp.get("exact")), rp)
+    return ctx.finish("proof", {"evaluations": 1, "distinct_nontrivial": 1, "rule": "replay of one recorded input", "samples": [rp], "distribution": {}})
+
+
 def run(ctx):
     h = ctx.build_harness("c15")
     warun = ctx.build_harness("warun")
+    if ctx.replay:
+        return replay(ctx, h, warun)
     ctx.prove(required=REQUIRED)
     m = ctx.build_model("c15")
     dist = {}
@@ -594,7 +652,7 @@ def run(ctx):
                       {"op": "w bin quo -9223372036854775808 -1", "impl": probe[0], "math/big": probe[1], "go/constant": probe[2]})
 
     # ---- stage A: constant package vs exact arithmetic vs go/constant vs math/big vs Lean
-    cops = gen_const_ops(ctx)
+    cops = corpus_ops() + gen_const_ops(ctx)
     wl = ["w " + opline(o) for o in cops]
     wout = hrun(wl)
     refl, refidx = [], []
@@ -707,7 +765,9 @@ def run(ctx):
     dist["B:api_LoadProgramFile"] = len(sample)
     # `go vet` itself on the Go text: all accepted declarations in one file must vet clean; a few rejected ones must be reported
     accd = [d for i, d in enumerate(decls) if wa_verdicts[i].startswith("ok:") and go_verdicts[i].startswith("ok:")][:120]
-    rejd = [d for i, d in enumerate(decls) if not wa_verdicts[i].startswith("ok:") and not go_verdicts[i].startswith("ok:")][:8]
+    wordk = ("int", "uint", "uintptr")        # `go vet` checks with the host's 64-bit int: only explicit widths are comparable
+    rejd = [d for i, d in enumerate(decls) if not wa_verdicts[i].startswith("ok:") and not go_verdicts[i].startswith("ok:")
+            and not any(a in wordk for a in d.args if isinstance(a, str))][:8]
     rc, o = go_vet(ctx, "package main\n\n" + "\n".join(d.render(i, "go") for i, d in enumerate(accd)) + "\n\nfunc main() {}\n", "vet_acc")
     if rc != 0:
         ctx.notes.append("go vet rejects declarations that go/types (harness) and Wa accept: %s" % o[-400:])
@@ -817,21 +877,27 @@ def run(ctx):
     else:
         ctx.notes.append("shift probe program failed under Wa: %s %s" % (wst, werr[-200:]))
     # probe: global initialisers, the two root causes in wir aBasic.Bin, independent of the generated selection
-    gp = "package main\n\nvar a int64 = 1000\nvar b int64 = -33\nvar c uint64 = 9223372036854775808\nvar d uint64 = 9223372036854775807\nvar e int32 = -2147483648\n\nfunc main() {\n\tprintln(a, b, c, d, e)\n}\n"
+    gp = ("package main\n\nvar a int64 = 1000\nvar b int64 = -33\nvar c uint64 = 9223372036854775808\nvar d uint64 = 9223372036854775807\n"
+          "var e int32 = -2147483648\nvar r rune = -1\nvar u uint32 = 4294967295\nvar h uint16 = 65535\nvar q uint8 = 255\n\n"
+          "func main() {\n\tprintln(a, b, c, d, e, int64(r), u, h, q)\n}\n")
     wst, wlines, werr = run_wa(ctx, warun, gp, "probe_global")
     evaluations += 1
     if wst == "ok" and wlines:
         got = wlines[0].split()
-        want = ["1000", "-33", "9223372036854775808", "9223372036854775807", "-2147483648"]
+        want = ["1000", "-33", "9223372036854775808", "9223372036854775807", "-2147483648", "-1", "4294967295", "65535", "255"]
         if got[:2] != want[:2]:
             ctx.violation("global-init:int64:parseint-bitsize-6", "package-level `var a int64 = 1000; var b int64 = -33` print %s (wir aBasic.Bin parses the int64 text with bitSize 6)" % got[:2],
                           {"program": gp, "wa": wlines[0], "expected": " ".join(want)})
         if got[2:3] != want[2:3]:
             ctx.violation("global-init:uint64:ge-2^63-parsed-as-0", "package-level `var c uint64 = 9223372036854775808` prints %s (getValue renders the value as a negative int, Bin's ParseUint fails -> 0)" % got[2:3],
                           {"program": gp, "wa": wlines[0], "expected": " ".join(want)})
-        if got[3:] != want[3:]:
+        if got[5:6] != want[5:6]:
+            ctx.violation("global-init:rune:negative-parsed-as-0", "package-level `var r rune = -1` prints %s (wir aBasic.Bin parses rune constants with ParseUint)" % got[5:6],
+                          {"program": gp, "wa": wlines[0], "expected": " ".join(want)})
+        if got[3:5] + got[6:] != want[3:5] + want[6:]:
             ctx.violation("global-init:other:wrong-value", "global initialisers print %s, expected %s" % (got, want), {"program": gp, "wa": wlines[0]})
-
+    else:
+        ctx.violation("global-init:probe-failed", "global initialiser probe fails under Wa: %s %s" % (wst, werr[-200:]), {"program": gp})
     lap("stageC")
     # ---- stage D: float / complex constants — explored against go/constant only (no theorem)
     fops = gen_float_ops(ctx)
